@@ -8,6 +8,7 @@ Extra op (driver only): `load <dump>` replaces the state by a heap dump printed 
 -/
 import Garnish.Store.BasicOptimize
 import Garnish.Spec.GraphIso
+import Garnish.Lemmas.OptimizeWF
 import Garnish.Driver.ValIO
 namespace Garnish.Driver.Opt
 open Garnish Gen Garnish.Proto Garnish.BasicOpt Garnish.Driver
@@ -396,7 +397,9 @@ def runOp (n : Nat) (st : St) (op : String) : Except String (St × Bool) :=
         let after := sections s mapped retention st.syms none
         let m := String.intercalate "," (mapped.map toString)
         let iso := isoVerdict st.s s (optPairs st.s s roots mapped)
-        let rec_ := s!"{n}:opt ok M=[{m}] {dump s} BEFORE" ++ "{" ++ before ++ "} AFTER{" ++ after ++ "}" ++ s!" iso={iso}"
+        -- hypotheses of `C19_optimize_preserves` on the state before the call
+        let wfv := if wf st.s && rootsOK st.s roots then "1" else "0"
+        let rec_ := s!"{n}:opt ok M=[{m}] {dump s} BEFORE" ++ "{" ++ before ++ "} AFTER{" ++ after ++ "}" ++ s!" iso={iso} wf={wfv}"
         .ok ({ st with s := s, hs := hs, out := st.out ++ [rec_] }, true))
   | "clone" =>
     match handleOf rest st.hs with
@@ -412,7 +415,8 @@ def runOp (n : Nat) (st : St) (op : String) : Except String (St × Bool) :=
           | some c => if isValueCell c then some (x, x) else none
           | none => none)))
         let iso := isoVerdict st.s s pairs
-        let rec_ := s!"{n}:clone ok M=[{nw}] {dump s} BEFORE" ++ "{" ++ before ++ "} AFTER{" ++ after ++ "}" ++ s!" iso={iso}"
+        let wfv := if wf st.s && isNode st.s.cells a then "1" else "0"
+        let rec_ := s!"{n}:clone ok M=[{nw}] {dump s} BEFORE" ++ "{" ++ before ++ "} AFTER{" ++ after ++ "}" ++ s!" iso={iso} wf={wfv}"
         .ok ({ st with s := s, hs := st.hs.push nw, out := st.out ++ [rec_] }, true))
   | w => .error s!"BAD-SCRIPT op {w}"
 
